@@ -20,7 +20,7 @@ PLAN = {
     "C11": [("core", "dev"), ("ctl", "dev"), ("sizes", "dev")],
     "C16": [("layout", "dev"), ("core", "dev"), ("reopen", "dev")],
     "C17": [("ctl", "dev"), ("ctl", "release")],
-    "C18": [("ctl", "dev"), ("ro", "dev")],
+    "C18": [("ctl", "dev"), ("ro", "dev"), ("clone", "dev")],
     "C20": [("core", "dev"), ("ctl", "dev"), ("ro", "dev")],
 }
 
